@@ -37,14 +37,27 @@ def batches(ctx):
     n, ln = (300, 40) if quick else (5000, 100)
     out.append(("all-classes/random-subclass-heavy", [rh.random_history(rng, ln, p_sub=0.7) for _ in range(n)],
                 rh.NSLOTS, rh.ALL))
-    return out
+    # A registry belongs to a class OBJECT, not to what the class is called: a random fifth of the request lines of every
+    # batch runs on zoos of the same shape whose user classes no naming attribute tells apart (impl/registry.py
+    # build_variant: 1 = every user class of one kind has one __name__/__qualname__/__module__, as class factories, type()
+    # called twice and re-executed class statements produce; 2 = those of the library class of its kind).  The model's class
+    # table, hence its answer, is the same for every variant.  (thorough: additionally the exhaustive batches in full on both.)
+    mixed = []
+    for label, hists, nslots, watch, *q in out:
+        mixed.append((label, hists, nslots, watch, q[0] if q else 0,
+                      [rng.choice((0, 0, 0, 0, 0, 0, 0, 0, 1, 2)) for _ in range(4096)]))
+        if not quick and "exhaustive" in label:
+            mixed.append((label + "/indistinguishable-class-names", hists, nslots, watch, q[0] if q else 0, (1, 2)))
+    return mixed
 
 
 RULE = ("every history of depth 3 over equal requests (one name, two lengths, name-only, automatic names, ~, drops) across "
         "DomainS, a direct subclass, a sub-subclass, a sibling with changed constants/PREFIX/ID and two failing subclasses "
         "(raising before / after super().__init__); the same for six complex classes over rotations of two complexes built "
         "from domains of two classes; strands, macrostates, reactions over siblings and failing classes; random histories "
-        "with 70% subclass requests; all registries of all observed classes compared after every step; distinct = distinct "
+        "with 70% subclass requests; a random fifth of the request lines of each of these batches runs on two zoos of the "
+        "same shape whose user classes have identical __name__/__qualname__/__module__ (alike among themselves; alike to the "
+        "library class of their kind) against the same model answers; all registries of all observed classes compared after every step; distinct = distinct "
         "final observable states")
 
 
